@@ -82,7 +82,19 @@ pub fn run_history(acc: &mut Acc, r: &mut Rng, steps: u64) {
                 3 => obs.bal / 2,
                 _ => r.range128(1, obs.bal.max(1)),
             };
-            if r.chance(3, 4) {
+            if r.chance(1, 5) && obs.bal > 1_000_000 {
+                // a small outer loan around a chain of two large nested loans, repaid short by exactly the innermost
+                // loan's fees: only acceptable if those fees were (wrongly) left out of what the outer loan owes
+                let exact = Sym { pre: Pre::None, pre_swallow: false, repay_first: false, rep: Rep::Exact, pre2: None };
+                let mid = Sym { pre: Pre::Nested { other_vault: false, frac: 1, inner: Box::new(exact) }, pre_swallow: false, repay_first: false, rep: Rep::Exact, pre2: None };
+                let sym = Sym { pre: Pre::Nested { other_vault: false, frac: 2, inner: Box::new(mid) }, pre_swallow: false, repay_first: false, rep: Rep::ShortByDeepFees, pre2: None };
+                let small = (obs.bal / r.range128(50, 5000)).max(1);
+                let script = bind(&wd, v, small, &sym, 0);
+                let label = format!("direct {}", sym.label());
+                acc.count("loan.deep-short-probe");
+                monitored_loan(acc, &mut wd, user, v, small, How::Direct(script), &label);
+                class.push(9);
+            } else if r.chance(3, 4) {
                 let sym = gen_script(r, 3);
                 let script = bind(&wd, v, amount, &sym, r.range128(1, 1_000_000));
                 let label = format!("direct {}", sym.label());
